@@ -910,10 +910,10 @@ def big_session(n_out, n_in):
             req(3, "$/verif/text", {"uri": URI}), req(4, "shutdown"), note("exit")], name, text
 
 
-def big_check(exe, n_out, n_in, cuts):
+def big_check(exe, n_out, n_in, cuts, delay=0.0):
     msgs, name, text = big_session(n_out, n_in)
     data = b"".join(lspclient.frame(m) for m in msgs)
-    o = observe(exe, data, cuts, timeout=60.0, delay=0.0)
+    o = observe(exe, data, cuts, timeout=60.0, delay=delay)
     problems = list(o["frame_problems"])
     got = {m.get("id"): m for m in o["msgs"] if isinstance(m, dict) and "id" in m}
     if [m.get("id") for m in o["msgs"] if isinstance(m, dict) and "id" in m] != [1, 2, 3, 4]:
@@ -932,14 +932,25 @@ def big_level(ctx, exe):
     rng = ctx.rng
     fails, runs, sizes = [], 0, []
     for n_out, n_in in ([(3 << 20, 1 << 16), (1 << 16, 3 << 20), (5 << 20, 5 << 20)] if ctx.thorough() else [(3 << 20, 1 << 16), (70000, 2500000)]):
-        for mode in ("single write", "random cuts"):
-            _, total = 0, sum(len(lspclient.frame(m)) for m in big_session(n_out, n_in)[0])
-            cuts = [] if mode == "single write" else sorted(set(rng.randrange(1, total) for _ in range(6)))
-            problems, size = big_check(exe, n_out, n_in, cuts)
+        for mode in ("single write", "random cuts", "cuts a few bytes into the next header"):
+            lens = [len(lspclient.frame(m)) for m in big_session(n_out, n_in)[0]]
+            total = sum(lens)
+            delay = 0.0
+            if mode == "single write":
+                cuts = []
+            elif mode == "random cuts":
+                cuts = sorted(set(rng.randrange(1, total) for _ in range(6)))
+            else:
+                # every write ends 1..20 bytes behind a frame boundary, and the client pauses: what has arrived of the next header
+                # must survive whatever the server does with its buffer after a big frame
+                bounds = [sum(lens[:k]) for k in range(1, len(lens))]
+                cuts = sorted(set(b + rng.randint(1, 20) for b in bounds))
+                delay = 0.15
+            problems, size = big_check(exe, n_out, n_in, cuts, delay)
             runs += 1
             sizes.append(size)
             if problems:
-                again = [big_check(exe, n_out, n_in, cuts)[0] for _ in range(2)]
+                again = [big_check(exe, n_out, n_in, cuts, delay)[0] for _ in range(2)]
                 runs += 2
                 if all(again):
                     fails.append(dict(what="a session with frames of several MiB: " + problems[0], big=dict(n_out=n_out, n_in=n_in), cuts=cuts,
@@ -1150,7 +1161,7 @@ def replay(ctx, path):
         return 1
     if "big" in r:
         exe, _ = common.build_server()
-        problems, _ = big_check(exe, r["big"]["n_out"], r["big"]["n_in"], r.get("cuts") or [])
+        problems, _ = big_check(exe, r["big"]["n_out"], r["big"]["n_in"], r.get("cuts") or [], 0.15 if r.get("cuts") else 0.0)
         print("problems:", problems)
         return 1 if problems else 0
     if "aligned" in r:
